@@ -41,7 +41,8 @@ says; the event lists come from the trusted script `tools/gen_locktable.py`; the
 extracted from the source: every class theorem quantifies over it, constrained only by a SEQUENTIAL contract (what
 each method does when run alone — single-threaded behaviour, the subject of C16–C18 and of the unit tests), and the
 hand-written flows of `LinClasses.lean` / `LinReport.lean` show the contracts satisfiable on today's event lists;
-`RateMonitoring` (atomics outside the mutex) is covered by Part 1 and the probe only; real-time order of the
+`RateMonitoring` (critical sections plus a lock-free atomic load) does not have the shape of Part 2: it is covered by
+Part 3, `Properties/C19Rate.lean` (`serialisable`, `table_rate_monitoring_shaped`); real-time order of the
 linearization is by construction, not a theorem; the ThreadSanitizer harness cross-checks all of this on the real
 classes.
 -/
@@ -533,9 +534,10 @@ theorem linearizable_complete (g : Nat) (σ0 : Store V) (prog : Nat → List (Ca
     rw [h2, (hfin t).2, List.append_nil] at this
     exact this
 
-/-- classes of the table for which the reduction is NOT claimed: `RateMonitoring::getRate` is a lone atomic load
-    outside the mutex and `update` reads `windowSize_` before locking (its linearizability needs an argument about
-    the atomics that the event table does not carry) -/
+/-- classes of the table that do NOT have the one-critical-section shape of this reduction: `RateMonitoring::getRate`
+    is a lone atomic load outside the mutex and `update` reads `windowSize_` before locking.  They are covered by
+    Part 3 (`Properties/C19Rate.lean`): `table_rate_monitoring_shaped` checks, for every class named here, a richer
+    shape on the EXTENDED event lists (atomic loads / stores told apart) and `serialisable` gives it its meaning. -/
 def notReduced : List String := ["RateMonitoring"]
 
 /-- **The regenerated table of the real code has the shape the reduction needs** (re-checked by the kernel on every
